@@ -105,7 +105,16 @@ static void drv_reset(void)
 {
     int i;
     a_reset(); a_hook = hook; ntab = 0; new_d = NULL;
+#ifdef USE_INITIALIZER
+    for (i = 0; i <= MAXO; i++) {
+        cstl_shared_ptr_t s = CSTL_SHARED_PTR_INITIALIZER(S[i]); cstl_weak_ptr_t w = CSTL_WEAK_PTR_INITIALIZER(W[i]);
+        cstl_unique_ptr_t u = CSTL_UNIQUE_PTR_INITIALIZER(U[i]);
+        S[i] = s; W[i] = w; U[i] = u;
+    }
+    { struct cstl_guarded_ptr g0 = CSTL_GUARDED_PTR_INITIALIZER(G[0]); G[0] = g0; }
+#else
     for (i = 0; i <= MAXO; i++) { cstl_shared_ptr_init(&S[i]); cstl_weak_ptr_init(&W[i]); cstl_unique_ptr_init(&U[i]); }
+#endif
     for (i = 0; i < 3; i++) cstl_guarded_ptr_set(&G[i], &gtarget[i]);
 }
 static void drv_aborted(void) { a_end(); }
